@@ -150,6 +150,9 @@ type Machine struct {
 	stubs    map[string]int
 	lenientFmt bool
 	timeT    types.Type
+	curFn    *ssa.Function
+	skipGo   []string
+	curIn    ssa.Instruction
 }
 
 func (m *Machine) newState() *State {
@@ -712,6 +715,7 @@ func (m *Machine) run(s *State, stopDepth int) []*State {
 		in := f.blk.Instrs[f.idx]
 		f.idx++
 		m.stats.instrs++
+		m.curFn, m.curIn = f.fn, in
 		if m.tolerant {
 			m.execTolerant(s, f, in)
 			continue
